@@ -20,6 +20,10 @@ def list_of_map(loc):
     """self.recent.map -> self.recent"""
     if loc[0] == "H" and loc[2] and loc[2][-1] == "map":
         return ("H", loc[1], loc[2][:-1])
+    if loc[0] == "L" and loc[3] and loc[3][-1] == "map":
+        return ("L", loc[1], loc[2], loc[3][:-1])
+    if loc[0] == "T" and loc[2] and loc[2][-1] == "map":
+        return ("T", loc[1], loc[2][:-1])
     return loc
 
 
@@ -86,12 +90,15 @@ class LinkPrims:
                             if isinstance(e, dict) and e.get("n") in ("head", "tail") and e.get("of", "").endswith("RawLRU"):
                                 mentions.add(e["n"])
             npar = b["arg_count"]
-            if npar == 2 and direct:
-                k = "attach"
-            elif npar == 2:
-                k = "detach"
-            else:
+            calls = [blk["t"]["f"].get("q", "?") for blk in b["blocks"] if blk["t"]["k"] == "call"]
+            if npar == 2 and not calls:
+                k = "attach" if direct else "detach"
+            elif all(c.split("::")[-1] in ("new", "into_raw", "new_sigil", "new_unchecked") for c in calls) and calls:
                 k = "init"
+            else:
+                # stores links but also does other work (index / ownership events): not a primitive;
+                # its stores are reported by C03.R4 wherever the function is reached
+                continue
             self.kind[b["path"]] = k
             self.head_only[b["path"]] = mentions
 
@@ -150,6 +157,7 @@ class NT:
         self.lenver = {}
         self.events_on = []      # (idx, kind, list, node) list-level event log for routing rules
         self.cb_sites = []
+        self.cb_absent = False   # a branch on this path found self.on_evict to be None
         self.departures = []     # (idx, node, how)
         self.skip_depth = None
 
@@ -172,7 +180,7 @@ class NT:
             X, which, sent = el
             st = NState(("L", X), ("I", X), "raw", "%s.%s.%s" % (fmt_list(X), sent, which))
             st.kind = "end"
-            if not self.nonempty.get(X):
+            if not self.nonempty.get(X) and not self.implied_nonempty(X):
                 st.kind = "end-unguarded"
         elif is_sentinel_ptr(n):
             st = NState("?", "N", "raw", "sentinel")
@@ -270,6 +278,12 @@ class NT:
                     if st is not None and st.kind == "end-unguarded":
                         st.kind = "end"
 
+    def implied_nonempty(self, X):
+        """len(X) >= cap(X) was established and cap(X) >= 1 (inner list of a composite cache: see C03.R2b; or an explicit cap != 0 guard)"""
+        if self.room.get(X) is False and (self.capge1.get(X) or X[2] != ()):
+            return True
+        return False
+
     def cur_lenver(self, X):
         return self.lenver.get(X, 0)
 
@@ -288,8 +302,11 @@ class NT:
                 self.skip_depth = None
             if k == "branch":
                 self.learn(e)
-                if e.get("variant") and isinstance(e.get("cond"), tuple):
-                    pass
+                if e.get("variant") == "None" and isinstance(e.get("cond"), tuple) and e["cond"][0] == "discr":
+                    subj = e["cond"][1]
+                    for t in subterms(subj):
+                        if t[0] == "load" and t[1][0] in ("H", "L") and (t[1][2] if t[1][0] == "H" else t[1][3])[-1:] == ("on_evict",):
+                            self.cb_absent = True
             elif k == "enter":
                 pk = self.prims.kind.get(e["def"])
                 if pk in ("attach", "detach"):
@@ -299,9 +316,8 @@ class NT:
                     n = e["args"][1]
                     self.link_event(i, e, pk, X, n)
                     self.skip_depth = d  # do not interpret the stores inside the primitive
-                elif self.is_cb_wrapper(e["def"]):
-                    self.cb_sites.append((i, e))
-                    self.snapshot(i, e, "cb")
+                elif False:
+                    pass
             elif k == "call":
                 self.call_event(i, e)
             elif k == "from_raw":
@@ -309,7 +325,10 @@ class NT:
             elif k == "box_new":
                 v = e["val"]
                 if isinstance(v, tuple) and v[0] == "agg" and v[1] == "adt" and v[2][0] == ENTRY:
-                    self.node(e["ptr"])
+                    st = self.node(e["ptr"])
+                    kv = v[3][v[4].index("key")] if "key" in v[4] else None
+                    if isinstance(kv, tuple) and kv[0] == "uninit":
+                        st.kind = "sentinel"   # EntryNode with uninitialised payload: a list sentinel
                     self.events_on.append((i, "alloc", None, e["ptr"]))
             elif k == "into_raw":
                 st = self.nodes.get(e["ptr"])
@@ -327,8 +346,11 @@ class NT:
                 if pf is not None:
                     n, f = pf
                     st = self.node(n, e)
+                    self.use_as_entry(i, e, n, "its %s is read" % f)
                     st.hist.append("ptr::read of %s (ownership duplicated)" % f)
-                    self.find("C18.R1.4", e, "ptr::read/assume_init_read duplicates ownership of %s.%s while the node keeps it" % (fmt_val(n), f), n)
+                    if getattr(st, f) == "moved":
+                        self.find("C04.R2", e, "ptr::read of %s of node %s after it was moved out" % (f, fmt_val(n)), n)
+                    setattr(st, f, "dup")
             elif k == "replace":
                 self.replace(i, e)
             elif k == "swap":
@@ -388,7 +410,7 @@ class NT:
         if st is not None and st.kind == "end-unguarded":
             el = end_load(n)
             X = el[0]
-            if self.nonempty.get(X):
+            if self.nonempty.get(X) or self.implied_nonempty(X):
                 st.kind = "end"
                 return
             self.find("C03.R2", e, "%s is used as an entry (%s) on a path with no non-emptiness fact for %s: it may be the sentinel, whose key/val are uninitialised"
@@ -397,6 +419,9 @@ class NT:
 
     def call_event(self, i, e):
         hm = e.get("hm")
+        if hm and (e.get("generic") or hm == "clear"):
+            self.snapshot(i, e, "user")
+            return
         if hm:
             X = list_of_map(e["recv"])
             ks = e["keysrc"]
@@ -456,6 +481,9 @@ class NT:
                 self.events_on.append((i, "index", X, n, had_room))
                 self.room.pop(X, None)
             return
+        if (e.get("q") or "").endswith("OnEvictCallback::on_evict"):
+            self.cb_sites.append((i, e))
+            self.snapshot(i, e, "cb")
         if e.get("user") or self.is_user_call(e):
             self.snapshot(i, e, "user")
 
@@ -559,10 +587,18 @@ class NT:
             if self.prims.kind.get(fn) is None:
                 self.find("C03.R4", e, "store to a prev/next link (%s) outside the link primitives" % fmt_loc(loc))
             return
-        if pr[:1] == ("key",) and len(pr) == 1:
+        if pr[:1] in (("key",), ("val",)) and len(pr) == 1 and loc[1][0] != "alloc" and not is_sentinel_ptr(loc[1]):
             st = self.node(loc[1], e)
-            if st.index != "N" and loc[1][0] != "alloc":
-                self.find("C02.R1", e, "key of node %s is assigned while the node is indexed" % fmt_val(loc[1]), loc[1])
+            f = pr[0]
+            if f == "key" and st.index != "N":
+                self.find("C02.R1", e, "key of node %s is assigned while the node is indexed (%s)" % (fmt_val(loc[1]), st.short()), loc[1])
+            cur = getattr(st, f)
+            if cur == "init" and st.kind not in ("unknown",):
+                self.find("C04.R2", e, "%s of node %s is overwritten without moving the old %s out (MaybeUninit assignment does not drop: leak)" % (f, fmt_val(loc[1]), f), loc[1])
+            setattr(st, f, "init")
+            st.hist.append("overwrite %s" % f)
+            if f == "key":
+                self.departures.append((i, loc[1], "recycled"))
         if pr and pr[-1] in ("head", "tail") and not self.prims.kind.get(e.get("fn")) == "init":
             self.find("C03.R4", e, "store to %s outside the constructor of the sentinels" % fmt_loc(loc))
 
@@ -603,13 +639,15 @@ class NT:
                     self.find("C04.R1", endev, "node %s is taken out of its list and neither re-inserted, returned nor freed (leak): %s [source: %s]"
                               % (fmt_val(n), "; ".join(st.hist), st.src), n)
                 if (L or I) and (st.key != "init" or st.val != "init"):
-                    self.find("C04.R2", endev, "node %s stays in the cache with a moved-out payload (%s)" % (fmt_val(n), st.short()), n)
+                    self.find("C04.R2", endev, "node %s stays in the cache with a moved-out or duplicated payload (%s)" % (fmt_val(n), st.short()), n)
             elif st.own in ("boxed", "freed"):
                 if (L or I) and not self.teardown:
                     self.find("C03.R1", endev, "freed node %s is still %s" % (fmt_val(n), "linked" if L else "indexed"), n)
                 if n[0] == "alloc" and st.own == "boxed":
                     continue  # a Box never turned raw: owned by Rust
                 for f in ("key", "val"):
+                    if getattr(st, f) == "dup":
+                        continue  # read out with ptr::read before the node was freed: the copy is the owner
                     if getattr(st, f) == "init":
                         self.find("C04.R2", endev, "%s of freed node %s is never moved out or dropped (leak of the %s)" % (f, fmt_val(n), f), n)
         for v, used in self.detached.items():
